@@ -22,17 +22,24 @@ CLAIMS = {
          "of every parseExpression call site are pinned. The printer -> lexer -> Pratt parser round trip is checked on every ordered "
          "pair/triple of operator forms and random trees under layouts (model = implementation, implementation = specification value).",
          "8.C01", "refinement theorem evaluator-model = specification semantics + translator-pinned precedence tables + extracted printer/semantics as oracle"),
- "C02": ("proof", "Step theorems on the evaluator model: one truthiness for all conditionals, first truthy branch is the one evaluated, "
-         "later conditions are not evaluated, nothing without @else, surrounding text unaffected. Evaluator model tied to evaluator.go by "
-         "the correspondence run; the clean template semantics (Spec/Template.v) is the oracle on enumerated @if shapes.", "8.C02",
-         "evaluator-model theorems + correspondence + extracted big-step specification as oracle"),
- "C03": ("proof", "Theorems on the evaluator model: the recursive marker scan finds @break/@continue at any Block depth, a block stops at a "
-         "marker, loop metadata per pass, empty @each renders @else, non-array fails with an error. Tied by correspondence; big-step "
-         "specification is the oracle on enumerated loop shapes.", "8.C03",
-         "evaluator-model theorems (marker scan = signal) + correspondence + specification oracle"),
- "C04": ("proof", "Frame theorem by induction over the evaluator: a statement changes at most the innermost frame, @if leaves the chain "
-         "unchanged; type stability and the reserved name over any sequence of assignments (fold). Tied by correspondence.", "8.C04",
-         "invariant by induction over evaluator fuel and over assignment sequences"),
+ "C02": ("proof", "Refinement theorem (induction on the specification's fuel over nodes, blocks, @each and @for passes together): on the AST of "
+         "every specification template the model's statement evaluator gives the same output, signal and scope chain as the clean big-step "
+         "semantics of Spec/Template.v, and an error where it says error - so @if renders exactly the first branch whose condition is truthy, "
+         "conditions evaluated left to right in the enclosing scope and none after the chosen one; one truthiness for all conditionals. "
+         "Expressions through the C01 theorem. Tied to evaluator.go by the correspondence run; the specification is also the oracle on "
+         "enumerated @if shapes.", "8.C02",
+         "refinement proof model-evaluator vs big-step specification + correspondence + extracted specification as oracle"),
+ "C03": ("proof", "Same refinement theorem for loops: the model's each_loop / for_loop (marker objects found by a recursive scan through "
+         "nested Blocks, output concatenated per pass, @for post value re-bound to the init variable) refine the specification's passes with "
+         "signals: same output and scope chain after any number of passes, break ends the innermost loop only, continue the pass only, "
+         "empty @each / false-at-entry @for renders @else; loop metadata per pass; non-array is an error. Hypothesis: a ++/-- post clause "
+         "steps the init variable. Tied by correspondence; specification also the oracle on enumerated loop shapes.", "8.C03",
+         "refinement proof (marker scan = signals) by mutual induction + correspondence + specification oracle"),
+ "C04": ("proof", "Frame theorem by induction over the evaluator (a statement changes at most the innermost frame; @if restores the chain), "
+         "type stability and the reserved name over any assignment sequence, and - through the refinement theorem - the model's scope chain "
+         "after any statement is the specification's (assignment binds in the innermost block, one child scope per @if/loop discarded at "
+         "@end, env_set = the specification's assign). Tied by correspondence.", "8.C04",
+         "invariant by induction over evaluator fuel and assignment sequences + refinement to the scoped big-step specification"),
  "C05": ("proof", "PARTIAL (plain text proved; escapes and comments decided on generated instances). Theorem: for every byte string with no "
          "NUL, no '{{' and no '@' that starts a directive keyword (table regenerated from token.go) the lexer model yields one text token "
          "whose literal is the input then EOF (loop invariant of readHTML), the parser one HTML statement, and the model's render is the "
